@@ -224,7 +224,6 @@ Proof.
         -- intros [H|[[->|H1] H2]]; [now left|congruence|right; now split].
 Qed.
 
-Hypothesis Hne : C <> [].
 Hypothesis Hrc : cnt (root C) <> 0.
 
 (* state of the sweep once the nodes k .. len-1 are processed *)
